@@ -40,6 +40,9 @@ const (
 	// the override of block a carries this level's definition of block b inside it (and the level has no top-level b)
 	bkNestedDef
 	bkNestedDefParent
+	// parent() more than once in one rendering of the override, with a variable the lower definitions read changed in between
+	bkParentVarChange
+	bkParentInLoop
 )
 
 func c10Body(kind, level int, name string, hasLower bool, inRow bool) ([]mt.Stmt, bool) {
@@ -75,6 +78,16 @@ func c10Body(kind, level int, name string, hasLower bool, inRow bool) ([]mt.Stmt
 		return []mt.Stmt{mt.Set{Name: "pp", E: mt.Parent{}}, mt.T(tag + "["), mt.P(mt.V("pp")), mt.P(mt.Filt{E: mt.V("pp"), Name: "length"}), mt.T("]")}, true
 	case bkLoop:
 		return []mt.Stmt{mt.For{Val: "x", Seq: mt.V("xs"), Body: []mt.Stmt{mt.P(mt.V("x")), mt.T(tag)}}}, true
+	case bkParentVarChange:
+		if !hasLower {
+			return []mt.Stmt{mt.T(tag)}, true
+		}
+		return []mt.Stmt{mt.T(tag + "("), par, mt.Set{Name: "v", E: mt.S(fmt.Sprintf("W%d", level))}, mt.T("~"), par, mt.T(")")}, true
+	case bkParentInLoop:
+		if !hasLower {
+			return []mt.Stmt{mt.T(tag)}, true
+		}
+		return []mt.Stmt{mt.T(tag + "("), mt.For{Val: "x", Seq: mt.V("xs"), Body: []mt.Stmt{mt.Set{Name: "v", E: mt.Op("~", mt.S("X"), mt.V("x"))}, par, mt.T(";")}}, mt.T(")")}, true
 	case bkNestedDef, bkNestedDefParent:
 		inner := []mt.Stmt{mt.T(fmt.Sprintf("N%d.b", level))}
 		out := []mt.Stmt{mt.T(tag + "⟦")}
@@ -111,7 +124,7 @@ func c10Layout(kind int, body func(name string) []mt.Stmt) ([]mt.Stmt, []string)
 func (p *c10) build(levels int, kinds [][]int, layout int, nameForm int, flag bool) (*mt.TmplSet, string, map[string]mt.Val, bool) {
 	set := mt.NewSet()
 	usesParent := false
-	base, names := c10Layout(layout, func(n string) []mt.Stmt { return []mt.Stmt{mt.T("B0." + n)} })
+	base, names := c10Layout(layout, func(n string) []mt.Stmt { return []mt.Stmt{mt.T("B0." + n + "="), mt.P(mt.V("v"))} })
 	set.Add("t0", base)
 	defined := map[string]bool{"a": true, "b": true}
 	for lv := 1; lv < levels; lv++ {
@@ -139,13 +152,13 @@ func (p *c10) build(levels int, kinds [][]int, layout int, nameForm int, flag bo
 		}
 		for bi, n := range names {
 			k := kinds[lv-1][bi]
-			if n == "a" && k >= bkNestedDef && inRowLayout(layout) {
+			if n == "a" && (k == bkNestedDef || k == bkNestedDefParent) && inRowLayout(layout) {
 				k = bkText // a block defined inside a loop body of the base is left to the plain kinds
 			}
-			if n == "b" && (kinds[lv-1][0] >= bkNestedDef && !inRowLayout(layout)) {
+			if n == "b" && ((kinds[lv-1][0] == bkNestedDef || kinds[lv-1][0] == bkNestedDefParent) && !inRowLayout(layout)) {
 				continue // this level defines b inside its override of a
 			}
-			if n == "b" && k >= bkNestedDef {
+			if n == "b" && (k == bkNestedDef || k == bkNestedDefParent) {
 				k = bkTextParent
 			}
 			if k == bkTextParent || k == bkParent || k == bkParentTwice || k >= bkParentFiltered {
@@ -264,7 +277,7 @@ func (p *c10) Run(rec *core.Recorder, seed uint64, idx int, tier string) {
 	levels := r.Range(2, 6)
 	kinds := make([][]int, levels-1)
 	for lv := range kinds {
-		kinds[lv] = []int{r.Intn(13), r.Intn(11)}
+		kinds[lv] = []int{r.Intn(15), []int{0, 1, 2, 3, 4, 5, 6, 7, 8, 9, 10, bkParentVarChange, bkParentInLoop}[r.Intn(13)]}
 	}
 	nameForm := r.Intn(3)
 	set, main, ctx, up := p.build(levels, kinds, r.Intn(4), nameForm, r.Bool())
